@@ -1,7 +1,7 @@
 // Runtime contract check of the number-suffix rule end to end (attached to
 // harper-core/src/linting/correct_number_suffix.rs). BOUNDED stand-in for the parts of C17 that are not
 // under a Verus/Kani contract (lex_number, condense_number_suffixes, CorrectNumberSuffix::lint):
-// for every n in a set of 140 integers (0..=125, boundaries of 10^k, 2^32 +- 3, 2^53 - 120 ..), each
+// for every n in a set of 221 integers (0..=125, round years, boundaries of 10^k incl. 10^15, 2^32 +, 2^53 - 120 ..), each
 // of the 4 suffixes in 4 letter cases, at 3 positions in a sentence: a lint is reported exactly when
 // the suffix is not the English ordinal suffix of n, it covers exactly the two suffix letters, its
 // only suggestion is the correct suffix, and after applying it nothing is reported.
@@ -16,9 +16,10 @@ fn rac_ordinal(n: u64) -> &'static str {
 #[test]
 fn rac_number_suffix_rule() {
     let mut ns: Vec<u64> = (0..=125).collect();
-    for k in [1_000u64, 10_000, 100_000, 1_000_000, 1u64 << 32, 1u64 << 40, (1u64 << 53) - 120] {
+    for k in [1_000u64, 10_000, 100_000, 1_000_000, 1u64 << 32, 1u64 << 40, 1_000_000_000_000_000, (1u64 << 53) - 120] {
         for d in [1u64, 2, 3, 4, 11, 12, 13, 21, 101, 111, 112] { ns.push(k + d); }
     }
+    ns.extend([1000u64, 1990, 2000, 2020, 1980, 10_000, 1_000_000]);
     let prefixes = ["", "She finished in ", "On the \"big\" day, the "];
     let mut cases = 0u64;
     let mut nontrivial = 0u64;
@@ -69,5 +70,31 @@ fn rac_number_suffix_rule() {
             }
         }
     }
-    println!("RAC-OK number_suffix_rule cases={} nontrivial={} bound=203-integers-x-16-suffix-variants-x-3-positions", cases, nontrivial);
+    // two ordinals in one document: each is judged on its own
+    let small = [1u64, 2, 3, 4, 11, 12, 13, 21, 22, 101, 112];
+    for a in small.iter() {
+        for sa in ["st", "nd", "rd", "th"] {
+            for b in small.iter() {
+                for sb in ["st", "nd", "rd", "th"] {
+                    let text = format!("We came {}{} in May, {}{} in June.", a, sa, b, sb);
+                    let doc = Document::new_plain_english_curated(&text);
+                    let lints = CorrectNumberSuffix.lint(&doc);
+                    cases += 1;
+                    let mut want: Vec<(usize, usize)> = vec![];
+                    let pa = "We came ".len() + a.to_string().len();
+                    if sa != rac_ordinal(*a) { want.push((pa, pa + 2)); }
+                    let pb = format!("We came {}{} in May, ", a, sa).len() + b.to_string().len();
+                    if sb != rac_ordinal(*b) { want.push((pb, pb + 2)); }
+                    let mut got: Vec<(usize, usize)> = lints.iter().map(|l| (l.span.start, l.span.end)).collect();
+                    got.sort();
+                    if !want.is_empty() { nontrivial += 1; }
+                    if got != want {
+                        println!("RAC-CEX number_suffix_rule {{\"text\": {:?}, \"why\": \"lint spans {:?}, expected {:?}\"}}", text, got, want);
+                        panic!("number suffix rule contract violated");
+                    }
+                }
+            }
+        }
+    }
+    println!("RAC-OK number_suffix_rule cases={} nontrivial={} bound=221-integers-x-16-suffix-variants-x-3-positions+2-ordinals-per-text", cases, nontrivial);
 }
